@@ -83,6 +83,7 @@ Print Assumptions C13_not_invoked_otherwise.
    payload addressed to a notify-shaped method" the completions are: [error] in every failure
    case, and what the handler owes otherwise (one, also when it completes twice or completes and
    then panics - F11 repaired; none only if the handler's own code returns without completing) *)
+(* [owed] = [owed_g false]: the completion function itself never panics (see C13_dispatch_* for one that does) *)
 Theorem C13_completes_once_partial : forall es s route dec c b,
   f4_ser es s route dec true = false ->
   exists tr, call_ser (build es) s route dec c true b = Done tr /\
@@ -145,21 +146,95 @@ Theorem C13_history_refuted : exists h, has_f4 h = true /\ ~ holds h (run h).
 Proof. exact history_refuted. Qed.
 Print Assumptions C13_history_refuted.
 
-(* the tables answering at any point are Build() of the entries registered before the last Build *)
-Theorem C13_tables_of_last_build : forall h,
-  s_cs (final h) = build (ss_built (sfinal h)) /\ s_entries (final h) = ss_reg (sfinal h).
+(* the tables answering at any point are, per collection, Build() of the entries registered
+   before its last Build *)
+Theorem C13_tables_of_last_build : forall h k,
+  s_cs (final h k) = build (ss_built (sfinal h k)) /\ s_entries (final h k) = ss_reg (sfinal h k).
 Proof. exact tables_of_last_build. Qed.
 Print Assumptions C13_tables_of_last_build.
 
+(* ---- the Dispatch layer: a ServiceRequest arriving at a Service whose APIDispatcher was made
+   over the collections built from [ess], for ALL lists of entry sets ---- *)
+
+(* master equation outside F4: the first collection resolving the route answers; none = one
+   "no method" response (and the request falls through to ReceiveRequest iff its body deserialises) *)
+Theorem C13_dispatch_eq : forall ess rid route dec rawok cx b,
+  route <> [] -> f4_disp ess rid route dec = false ->
+  handle_request (map build ess) rid route dec rawok cx b =
+  match first_resolving ess route with
+  | None => DO [] (if negb (rid =? 0) then [RspNoMethod] else []) rawok false
+  | Some es =>
+      let v := expect_ser es SProto route dec cx in
+      DO (disp_inv v) (disp_rsps v (negb (rid =? 0)) b) false false
+  end.
+Proof. exact handle_request_eq. Qed.
+Print Assumptions C13_dispatch_eq.
+
+(* a request (rid <> 0) gets EXACTLY ONE response: "no method" when no collection has the route,
+   an error in every other failure case (nothing runs in either), and in the good case the
+   targeted method runs once and the response is what the handler owes (an error also when its
+   result cannot be serialised) *)
+Theorem C13_dispatch_one_response : forall ess rid route dec rawok cx b,
+  route <> [] -> f4_disp ess rid route dec = false -> rid <> 0 -> b <> BNever ->
+  let d := handle_request (map build ess) rid route dec rawok cx b in
+  length (d_rsp d) = 1%nat /\
+  (first_resolving ess route = None -> d_rsp d = [RspNoMethod] /\ d_inv d = []) /\
+  (forall es, first_resolving ess route = Some es -> expect_ser es SProto route dec cx = VFail ->
+     d_rsp d = [RspDone true] /\ d_inv d = []) /\
+  (forall es mt seen, first_resolving ess route = Some es ->
+     expect_ser es SProto route dec cx = VGood mt seen ->
+     d_inv d = [EvInvoke (m_uid mt) seen] /\ d_rsp d = map RspDone (owed_g true b)).
+Proof. exact dispatch_one_response. Qed.
+Print Assumptions C13_dispatch_one_response.
+
+(* a notification (rid = 0) is never answered *)
+Theorem C13_dispatch_notify_silent : forall ess route dec rawok cx b,
+  d_rsp (handle_request (map build ess) 0 route dec rawok cx b) = [].
+Proof. exact dispatch_notify_silent. Qed.
+Print Assumptions C13_dispatch_notify_silent.
+
+(* no request whatsoever makes the service actor fail *)
+Theorem C13_dispatch_no_escape : forall ess rid route dec rawok cx b,
+  d_esc (handle_request (map build ess) rid route dec rawok cx b) = false.
+Proof. exact dispatch_no_escape. Qed.
+Print Assumptions C13_dispatch_no_escape.
+
+(* F4 on this path: a REQUEST to a notify-shaped method is swallowed - for all entry sets nothing
+   runs and the peer gets no response; so "exactly one response" is false for today's code *)
+Theorem C13_dispatch_f4_silent : forall ess rid route dec rawok cx b,
+  f4_disp ess rid route dec = true ->
+  handle_request (map build ess) rid route dec rawok cx b = DO [] [] false false.
+Proof. exact handle_request_f4. Qed.
+Print Assumptions C13_dispatch_f4_silent.
+
+Theorem C13_dispatch_one_response_refuted :
+  exists ess rid route dec rawok cx b es mt v,
+    rid <> 0 /\ b <> BNever /\ first_resolving ess route = Some es /\
+    expect_ser es SProto route dec cx = VGood mt (Some v) /\
+    d_rsp (handle_request (map build ess) rid route dec rawok cx b) = [].
+Proof. exact dispatch_one_response_refuted. Qed.
+Print Assumptions C13_dispatch_one_response_refuted.
+
+Theorem C13_history_refuted_dispatch : exists h, has_f4 h = true /\ ~ holds h (run h).
+Proof. exact history_refuted_dispatch. Qed.
+Print Assumptions C13_history_refuted_dispatch.
+
 (* non-vacuity: lower-cased names under group "hi"; Bad (non-pointer message) is not exposed;
-   complete-then-panic completes once; undecodable payload completes once with an error; a
-   notification without completion function just runs *)
+   collection 1 is empty; complete-then-panic completes once; undecodable payload completes once
+   with an error; a notification without completion function just runs.  Through a dispatcher
+   over collections [1; 0]: an unserialisable result is answered with one error; an unexposed
+   route with one "no method" (its body does not deserialise: no fall-through, no panic); a
+   foreign context with one error and no invocation; a notification with nothing *)
 Example C13_example :
   run ex_hist =
-  [BUnit; BUnit; BBool true; BBool false;
+  [BUnit; BUnit; BBool true; BBool false; BBool false;
    BCall [EvInvoke 1 (Some 7); EvComplete false] false;
    BCall [EvComplete true] false;
-   BCall [EvInvoke 2 (Some 7)] false].
+   BCall [EvInvoke 2 (Some 7)] false;
+   BDisp [EvInvoke 1 (Some 7)] [RspDone true] false false;
+   BDisp [] [RspNoMethod] false false;
+   BDisp [] [RspDone true] false false;
+   BDisp [EvInvoke 2 (Some 7)] [] false false].
 Proof. vm_compute. reflexivity. Qed.
 
 Example C13_example_monitor : has_f4 ex_hist = false /\ holds ex_hist (run ex_hist).
